@@ -18,12 +18,14 @@ func VerifMemLRUHistory() {
 	capacity := verif.Uint64("capacity")
 	h := vmNew(capacity, 2)
 	h.sizeFn = vmSmallSize
-	steps := verif.Bound("steps", 3, 4)
+	steps := verif.Bound("steps", 2, 4)
 	ops := []int{voCreate, voOpen, voMarkComplete, voDelete, voBan, voUnban}
 	for i := 0; i < steps; i++ {
 		h.step(ops, 1)
 	}
-	verif.Cover("model-evicted-something", h.m.evicted > 0)
+	if steps >= 3 { // an eviction needs create, complete, create
+		verif.Cover("model-evicted-something", h.m.evicted > 0)
+	}
 }
 
 // VerifMemEvictionOrder: complete blobs, symbolic touches/bans/unbans, then a
@@ -38,11 +40,15 @@ func VerifMemEvictionOrder() {
 	h.do(voCreate, 1, storelib.BlobScopeAny)
 	h.do(voMarkComplete, 1, storelib.BlobScopeAny)
 	h.check()
-	steps := verif.Bound("steps", 2, 3)
+	steps := verif.Bound("steps", 1, 3)
 	ops := []int{voOpen, voBan, voUnban}
+	h.nkeys = 2
 	for i := 0; i < steps; i++ {
-		h.step(ops, 1)
+		// under every scope: an operation rejected as out of scope must not
+		// change the eviction order either
+		h.step(ops, 3)
 	}
+	h.nkeys = 3
 	h.do(voCreate, 2, storelib.BlobScopeAny)
 	h.check()
 	verif.Cover("evicted-one", h.m.evicted == 1)
@@ -108,4 +114,72 @@ func VerifFindingMemCreateSizeWrap() {
 	verif.Assert("huge-create-does-not-panic", !panicked)
 	verif.Assert("huge-create-rejected", vmClass(err) == h.m.create(1, huge))
 	h.check()
+}
+
+// vmBuildState brings the store, through its own API, into one of the
+// canonical states over the first nkeys keys: every key absent, incomplete,
+// incomplete and banned, complete, or complete and banned (size 1 each, the
+// symbolic capacity admits them all); every LRU order of the complete unbanned
+// keys.
+func vmBuildState(h *vmH, nkeys int) {
+	st := make([]int, nkeys)
+	var unbannedComplete []int
+	for k := 0; k < nkeys; k++ {
+		st[k] = verif.Choice("state", 5) // 0 absent, 1 incomplete, 2 incomplete+banned, 3 complete, 4 complete+banned
+		if st[k] == 0 {
+			continue
+		}
+		h.do(voCreate, k, storelib.BlobScopeAny)
+		verif.Assume(h.m.blobs[k].present)
+		if st[k] == 2 || st[k] == 4 {
+			h.do(voBan, k, storelib.BlobScopeAny)
+		}
+		if st[k] == 4 {
+			h.do(voMarkComplete, k, storelib.BlobScopeAny)
+		}
+		if st[k] == 3 {
+			unbannedComplete = append(unbannedComplete, k)
+		}
+	}
+	for len(unbannedComplete) > 0 {
+		i := 0
+		if len(unbannedComplete) > 1 {
+			i = verif.Choice("lru-next", len(unbannedComplete))
+		}
+		h.do(voMarkComplete, unbannedComplete[i], storelib.BlobScopeAny)
+		unbannedComplete = append(append([]int{}, unbannedComplete[:i]...), unbannedComplete[i+1:]...)
+	}
+	verif.Assume(h.m.evicted == 0)
+	h.check()
+}
+
+var vmStructOps = []int{voCreate, voMarkComplete, voOpen, voStat, voHas, voDelete, voBan, voUnban}
+
+// VerifMemStepFromState: from every canonical state over two keys, one
+// operation (two in the thorough tier) on key 0 under every scope — including
+// the calls the scope rejects, which must have no effect — then a Create of a
+// third key that may need room: results, listings, LRU order and the victims of
+// that Create equal the model's.
+func VerifMemStepFromState() {
+	capacity := verif.Uint64("capacity")
+	h := vmNew(capacity, 3)
+	h.sizeFn = func() uint64 { return 1 }
+	h.nkeys = 2
+	vmBuildState(h, 2)
+	steps := verif.Bound("steps", 1, 2)
+	for i := 0; i < steps; i++ {
+		op := vmStructOps[verif.Choice("op", len(vmStructOps))]
+		scope := storelib.BlobScopeAny
+		if op != voCreate && op != voMarkComplete {
+			scope = vmScopeOf(verif.Choice("scope", 3))
+		}
+		h.do(op, 0, scope)
+		h.check()
+	}
+	h.nkeys = 3
+	h.sizeFn = func() uint64 { return uint64(1 + verif.Choice("size", 2)) }
+	h.do(voCreate, 2, storelib.BlobScopeAny)
+	h.check()
+	verif.Cover("model-evicted-something", h.m.evicted > 0)
+	verif.Cover("out-of-scope-seen", h.sawOutOfScope)
 }
